@@ -688,7 +688,7 @@ fn gen_filter(rng: &mut Rng) -> String {
 fn gen_pool(rng: &mut Rng, d: f64, tier: Tier) -> Vec<String> {
     let d = if d.is_finite() && d > 0.0 && d < 1.0e6 { d } else { 1.0 };
     let mut pool = Vec::new();
-    let fam = rng.weighted(&[6, 6, 3, 3, 2, 2, 3, 1]);
+    let fam = rng.weighted(&[6, 6, 3, 3, 2, 2, 3, 1, 1]);
     match fam {
         0 => {
             // doubles around a base
@@ -762,6 +762,14 @@ fn gen_pool(rng: &mut Rng, d: f64, tier: Tier) -> Vec<String> {
             for x in [f64::MAX, -f64::MAX, 0.0, f64::INFINITY, f64::NEG_INFINITY] {
                 pool.push(f64tok(x));
             }
+        }
+        8 => {
+            // signed zeros and the smallest subnormals: equal as numbers, different bit patterns
+            for x in [0.0f64, -0.0, 5e-324, -5e-324] {
+                pool.push(f64tok(x));
+            }
+            pool.push(format!("g{:08x}", 0.0f32.to_bits()));
+            pool.push(format!("g{:08x}", (-0.0f32).to_bits()));
         }
         _ => {
             // mixed kinds
